@@ -10,3 +10,8 @@ import Gleece.Properties.C20
 #print axioms Gleece.Order.every_command_loads_config_first
 #print axioms Gleece.Order.routes_written_with_configured_mode
 #print axioms Gleece.Order.spec_failure_writes_nothing
+#print axioms Gleece.Config.segMatch_literal
+#print axioms Gleece.Config.segMatch_star
+#print axioms Gleece.Config.doublestar_zero
+#print axioms Gleece.Config.doublestar_more
+#print axioms Gleece.Config.segsMatch_literal
